@@ -179,10 +179,12 @@ def binop(st: State, op: ast.operator, a: Any, b: Any) -> Any:
             return a * b
         if isinstance(op, ast.Div):
             return to_real(a) / to_real(b)
-        if isinstance(op, ast.FloorDiv) and smt.is_int(a):
-            return a / b  # caller must ensure b > 0 (z3 int div is floor for positive divisor)
-        if isinstance(op, ast.Mod) and smt.is_int(a):
-            return a % b
+        if isinstance(op, (ast.FloorDiv, ast.Mod)) and smt.is_int(a) and smt.is_int(b):
+            # Python floors towards minus infinity and the remainder has the sign of the divisor; z3's integer division is
+            # Euclidean (remainder >= 0), which coincides with it for a positive divisor only.  Division by zero is the
+            # caller's business (the statement-level evaluation raises ZeroDivisionError first).
+            q = z3.If(b > 0, a / b, (-a) / (-b))
+            return z3.simplify(q) if isinstance(op, ast.FloorDiv) else z3.simplify(a - b * q)
     if isinstance(op, ast.Mod) and isinstance(a, (str, OpaqueStr)):
         return OpaqueStr()
     if isinstance(op, ast.BitOr) and smt.is_bool(a) and smt.is_bool(b):
